@@ -61,6 +61,8 @@ def explore(names, depth, total, root):
 def replay(case):
     if 'converter' in case:
         return c11.replay({'history': case['converter']})
+    if 'iso_code_attempts' in case:
+        return fork_call(iso_code_attempts)
 
     def run():
         out = []
@@ -124,9 +126,64 @@ def converter_histories(total, tier):
     return n
 
 
+def iso_code_attempts():
+    """Rejected exchange rates / converter updates that name a not yet
+    registered currency by its ISO code must not register it (fork)."""
+    from datetime import date
+    from decimalfp import Decimal
+    import quantity
+    from quantity.money import Money, MoneyConverter, ExchangeRate
+    eur = Money.register_currency('EUR')
+    usd = Money.register_currency('USD')
+    conv = MoneyConverter(eur, lambda: date(2020, 1, 1))
+    attempts = [
+        ('update(None, [("CHF", 0.95, 1), (USD, 0, 1)])', 'CHF',
+         lambda: conv.update(None, [('CHF', Decimal('0.95'), 1),
+                                    (usd, 0, 1)])),
+        ('update("x", [("SEK", 10, 1)])', 'SEK',
+         lambda: conv.update('x', [('SEK', 10, 1)])),
+        ('ExchangeRate("JPY", 100, EUR, -0.62)', 'JPY',
+         lambda: ExchangeRate('JPY', 100, eur, Decimal('-0.62'))),
+        ('ExchangeRate(EUR, 1.5, "GBP", 1)', 'GBP',
+         lambda: ExchangeRate(eur, Decimal('1.5'), 'GBP', 1)),
+        ('ExchangeRate("NOK", 1, "NOK", 1)', 'NOK',
+         lambda: ExchangeRate('NOK', 1, 'NOK', 1)),
+    ]
+    out = []
+    for what, code, f in attempts:
+        before = sorted(u.symbol for u in Money.units())
+        try:
+            f()
+            continue            # accepted: nothing was rejected
+        except Exception:
+            pass
+        after = sorted(u.symbol for u in Money.units())
+        known = True
+        try:
+            quantity.Unit(code)
+        except ValueError:
+            known = False
+        parses = True
+        try:
+            quantity.Quantity(f"1 {code}")
+        except quantity.QuantityError:
+            parses = False
+        if after != before or known or parses:
+            out.append(('C16:currency-registered-by-rejected-rate',
+                        f"{what} was rejected but Money.units() went from "
+                        f"{before} to {after}; Unit({code!r}) known: {known}"
+                        f"; '1 {code}' parses: {parses}"))
+    return out
+
+
 def run(tier, seed):
     total = Stats()
     counts = {}
+    total.paths += 5
+    total.transitions += 5
+    total.evaluations += 15
+    for sig, msg in fork_call(iso_code_attempts):
+        total.violation(sig, msg, {'iso_code_attempts': True})
     if tier == 'thorough':
         plans = [(VALID + INVALID, 4)]
     else:
